@@ -42,6 +42,7 @@ pub struct Solver {
 	pub prefer_standalone: bool,
 	pub standalone_runs: u64,
 	pub cvc5_decided: u64,
+	pub abs_decided: u64,
 	pub full_timeout_ms: u64,
 }
 
@@ -78,6 +79,7 @@ impl Solver {
 			prefer_standalone: false,
 			standalone_runs: 0,
 			cvc5_decided: 0,
+			abs_decided: 0,
 			full_timeout_ms: timeout_ms,
 		};
 		s.send("(set-option :print-success false)");
@@ -297,6 +299,15 @@ impl Solver {
 	}
 	pub fn standalone(&mut self, tm: &Terms, extra: &[(T, bool)]) -> Res {
 		self.standalone_runs += 1;
+		// 1. sound abstraction (products/quotients of symbolic terms uninterpreted): unsat is final
+		let abs_script = self.script_ex(tm, extra, true);
+		if abs_script.contains("abs_mul ") || abs_script.contains("abs_div ") {
+			let a = run_script(&format!("{} -in", self.cmd.split_whitespace().next().unwrap_or("z3")), &abs_script, 10);
+			if a == "unsat" {
+				self.abs_decided += 1;
+				return Res::Unsat;
+			}
+		}
 		let script = self.script(tm, extra);
 		let prog = self.cmd.split_whitespace().next().unwrap_or("z3").to_string();
 		let secs = (self.full_timeout_ms / 1000).max(1);
@@ -425,6 +436,9 @@ impl Solver {
 
 	/// standalone SMT-LIB script for "PC ∧ extra": used for the cross-check with a second solver
 	pub fn script(&self, tm: &Terms, extra: &[(T, bool)]) -> String {
+		self.script_ex(tm, extra, false)
+	}
+	pub fn script_ex(&self, tm: &Terms, extra: &[(T, bool)], abstract_nl: bool) -> String {
 		let mut need: Vec<T> = self.pc.iter().map(|(t, _)| *t).collect();
 		need.extend(extra.iter().map(|(t, _)| *t));
 		let mut seen = HashSet::new();
@@ -447,6 +461,9 @@ impl Solver {
 			}
 		}
 		let mut s = String::from("(set-logic ALL)\n");
+		if abstract_nl {
+			s.push_str("(declare-fun abs_mul (Real Real) Real)\n(declare-fun abs_div (Real Real) Real)\n");
+		}
 		let mut ufs = HashSet::new();
 		for x in &order {
 			match tm.node(*x) {
@@ -458,7 +475,8 @@ impl Solver {
 							s.push_str(&format!("(declare-fun {} ({}) Real)\n", name, vec!["Real"; *ar].join(" ")));
 						}
 					}
-					s.push_str(&format!("(define-fun t{} () {} {})\n", x, Terms::sort_smt(tm.sort(*x)), tm.app_smt(*x)));
+					let body = if abstract_nl { tm.app_smt_abs(*x) } else { tm.app_smt(*x) };
+					s.push_str(&format!("(define-fun t{} () {} {})\n", x, Terms::sort_smt(tm.sort(*x)), body));
 				}
 				_ => {}
 			}
